@@ -98,10 +98,12 @@ Month(e) ==
      THEN Ck("SeaweedStart", /\ LEq(a.sw.wet, rc.swInit) /\ LEq(a.sw.area, rc.swInitArea)
                              /\ LEq(a.sw.h, Zero) /\ LEq(a.sw.f, Zero) /\ LEq(a.sw.b, Zero))
      ELSE Ck("SeaweedLedger",
-             \* wet + harvest + area-expansion loss = last month's biomass grown for a month
-             LEq(Add(Add(a.sw.wet, Draw(rc.gSw, a.sw)),
-                     Mul(Mul(Sub(a.sw.area, areaPrev), rc.swMinDens), Pct(rc.swLoss))),
-                 Mul(wetPrev, Add(One, Pct(s.growth)))))
+             \* biomass left + harvest + loss on newly used area = last month's biomass grown for a month (+ the same term for area given
+             \* up); both sides are sums of non-negative terms so that the LP tolerance is relative to the flows, not to their difference
+             LET d == Sub(a.sw.area, areaPrev)
+                 k == Mul(rc.swMinDens, Pct(rc.swLoss))
+             IN LEq(Add(Add(a.sw.wet, Draw(rc.gSw, a.sw)), Mul(MaxZ(d), k)),
+                    Add(Mul(wetPrev, Add(One, Pct(s.growth))), Mul(MaxZ(Neg(d)), k))))
   /\ Ck("SeaweedBounds", /\ LLe(rc.swInit, a.sw.wet) /\ LLe(a.sw.wet, Mul(rc.swMaxDens, s.built))
                          /\ LLe(rc.swInitArea, a.sw.area) /\ LLe(a.sw.area, s.built))
   /\ IF rc.kind = "humans"
